@@ -146,6 +146,8 @@ FilesOf(x) ==
          (CASE x.how = "inner-error" -> << <<Target(x), <<T(<<97>>), Failing>>>> >>
             [] x.how = "inner-syntax" -> << <<Target(x), <<T(<<97>>)>>, "bad">> >>
             [] x.how = "missing-nested" -> << <<Target(x), <<Inc(Lit(S(G_LIQ)))>>>> >>
+            \* (a file whose name is the very word the undefined variable is spelled with: still no string, still an error)
+            [] x.how = "nonstring-nil" -> << <<Target(x), Body(DISK)>>, <<JoinPath(DirOf(TOPS[x.top]), <<113>>), Body(DECOY)>> >>
             [] OTHER -> << <<Target(x), Body(DISK)>> >>)
 CacheOf(x) ==
   CASE x.g = "crossdir" -> IF x.where = "cache" THEN CrossFiles ELSE <<>>
